@@ -160,6 +160,8 @@ def build_tuner_harness(outdir, scratchdir, cmds, with_server=False):
         os.makedirs(os.path.join(mod, "shim"))
         shutil.copy(os.path.join(REPO, "tools", "tuner", "shim", "shim.go"), os.path.join(mod, "shim", "shim.go"))
         shutil.copy(os.path.join(VERIF, "tuner", "stubs", "shim", "stub_server.go"), os.path.join(mod, "shim", "stub_server.go"))
+        shutil.copy(os.path.join(VERIF, "tuner", "stubs", "shim", "stub_client.go"), os.path.join(mod, "shim", "stub_client.go"))
+        shutil.copytree(os.path.join(REPO, "tools", "tuner", "client"), os.path.join(mod, "client"), ignore=shutil.ignore_patterns("*_test.go"))
         shutil.copytree(os.path.join(VERIF, "tuner", "stubs", "tui"), os.path.join(mod, "tui"))
         shutil.copytree(os.path.join(VERIF, "tuner", "stubs", "uuid"), os.path.join(mod, "stubs", "uuid"))
     bins = {}
